@@ -259,6 +259,13 @@ pub fn set_contents(s: &Set2) -> (Pairs, Pairs) {
 }
 
 /// The set held by a keyspace actor, as a peer would obtain it (Serialize + decode).
+/// As `actor_set`, for callers that must survive an actor which cannot serialise its state.
+pub async fn try_actor_set<S: Storage>(group: &KeyspaceGroup<S>, keyspace: &str) -> Option<Set2> {
+    let ks = group.get_or_create_keyspace(keyspace).await;
+    let bytes = ks.send(Serialize).await.ok()?;
+    rkyv::from_bytes::<Set2>(&bytes).ok()
+}
+
 pub async fn actor_set<S: Storage>(group: &KeyspaceGroup<S>, keyspace: &str) -> Set2 {
     let ks = group.get_or_create_keyspace(keyspace).await;
     let bytes = ks.send(Serialize).await.expect("serialize");
